@@ -183,5 +183,24 @@ REG.contract(R + "LazyVariable.__eq__", params={"other": R + "LazyVariable"}, re
              ensures=["result == (self.name == other.name)"])
 REG.contract(R + "LazyValue.__hash__", returns="int", tags=["C02"], ensures=["True"])
 REG.contract(R + "LazyVariable.__hash__", returns="int", tags=["C02"], ensures=["True"])
+# ... and an object of any other class is simply not equal (arguments are compared element by element, so a LazyCall meets a LazyVariable,
+# a LazyValue or a LazyOperator whenever two calls differ in the kind of an argument: 'f(g(x)) + f(z)')
+def is_a(x, name):
+    """class membership by name (specification helper; executable). Same predicate symbols as terms_c.is_a, declared here so that
+    this module does not pull in terms_c (whose quantified class lemmas would join every VC of the checks that use this module)."""
+    return type(x).__name__ == name
+
+
+def _is_a(I, a, kw, node):
+    from vf.pyvc.ops import bool_val
+    from vf.pyvc.opaque import ufun, U
+    return bool_val(ufun(f"isinst!{a[1]}", U(), z3.BoolSort())(a[0].t))
+
+
+REG.externals[f"{__name__}.is_a"] = _is_a
+for _cls in ("LazyValue", "LazyCall", "LazyOperator", "LazyVariable"):
+    REG.contract(R + _cls + ".__eq__#other", of=R + _cls + ".__eq__", params={"other": "any"}, returns="bool", tags=["C02", "C12"],
+                 requires=[f"not is_a(other, '{_cls}')"], ensures=["result == False"])
 FUNCTIONS += [R + c + ".__eq__" for c in ("LazyValue", "LazyCall", "LazyOperator", "LazyVariable")] + \
+             [R + c + ".__eq__#other" for c in ("LazyValue", "LazyCall", "LazyOperator", "LazyVariable")] + \
              [R + "LazyValue.__hash__", R + "LazyVariable.__hash__"]
